@@ -447,7 +447,12 @@ func main() {
 					continue
 				}
 				mu.Unlock()
+				t0 := time.Now()
 				res, ks := runUnit(&w, dir, units[ui], caseTimeout)
+				if os.Getenv("C11_DEBUG") != "" {
+					u := units[ui]
+					fmt.Fprintf(os.Stderr, "unit %d %s %s %s shard %d/%d: %.2fs deaths=%d\n", u.ID, u.Kind, roots[u.Root].Name, u.Entry, u.Shard, u.NShards, time.Since(t0).Seconds(), len(ks))
+				}
 				mu.Lock()
 				results[ui], killersBy[ui] = res, ks
 				mu.Unlock()
